@@ -268,6 +268,84 @@ func genPow() {
 }
 func genMisc() {
 	genAddress()
+	genSlip10()
+	genEd()
+}
+
+func genSlip10() {
+	p := repoPkg("pkg/slip10")
+	el := repoPkg("pkg/slip10/elliptic")
+	ed := repoPkg("pkg/slip10/eddsa")
+	bt := repoPkg("pkg/slip10/elliptic/internal/btccurve")
+	bt2 := repoPkg("pkg/slip10/btccurve")
+	g := newGen("Slip10")
+	g.def("hardened", "Int", p.intConst("Hardened"))
+	g.def("fingerprintSize", "Int", p.intConst("FingerprintSize"))
+	g.def("chainCodeSize", "Int", p.intConst("ChainCodeSize"))
+	g.def("privateKeySize", "Int", p.intConst("PrivateKeySize"))
+	g.def("publicKeySize", "Int", p.intConst("PublicKeySize"))
+	g.src(p, "NewMasterKey", "DeriveKeyFromPath", "ExtendedKey.DeriveChild", "ExtendedKey.IsPrivate", "ExtendedKey.Public",
+		"ExtendedKey.Fingerprint", "uint32Bytes", "hmacSHA512", "hash160")
+	g.src(el, "Curve.NewPrivateKey", "secp256k1Curve.HmacKey", "nist256p1Curve.HmacKey", "PrivateKey.Bytes", "PrivateKey.IsPrivate",
+		"PrivateKey.Public", "PrivateKey.Shift", "PublicKey.Bytes", "PublicKey.IsPrivate", "PublicKey.Public", "PublicKey.Shift")
+	g.src(ed, "ed25519Curve.NewPrivateKey", "ed25519Curve.HmacKey", "Seed.Bytes", "Seed.IsPrivate", "Seed.Public", "Seed.HardenedOnly",
+		"Seed.Shift", "PublicKey.Bytes", "PublicKey.IsPrivate", "PublicKey.Public", "PublicKey.HardenedOnly", "PublicKey.Shift")
+	g.write()
+
+	s := newGen("Secp256k1")
+	for _, n := range []string{"P", "N", "B", "Gx", "Gy"} {
+		args := bt.callArgsInFunc("init", "secp256k1."+n)
+		s.def("hex"+n, "String", leanString(args))
+	}
+	s.src(bt, "koblitzCurve.IsOnCurve", "koblitzCurve.affineFromJacobian", "zForAffine", "koblitzCurve.Add", "koblitzCurve.addJacobian",
+		"koblitzCurve.Double", "koblitzCurve.doubleJacobian", "koblitzCurve.ScalarMult", "koblitzCurve.ScalarBaseMult", "init")
+	s.def("copiesIdentical", "Bool", boolLean(sameFile(filepath.Join(bt.dir, "secp256k1.go"), filepath.Join(bt2.dir, "secp256k1.go"))))
+	s.write()
+}
+
+// callArgsInFunc finds `<lhs>, _ = new(big.Int).SetString("<hex>", 16)` in function fn and returns the hex literal.
+func (p *pkg) callArgsInFunc(fn, lhs string) string {
+	res := ""
+	ast.Inspect(p.funcDecl(fn), func(n ast.Node) bool {
+		as, ok := n.(*ast.AssignStmt)
+		if !ok || len(as.Lhs) < 1 || p.src(as.Lhs[0]) != lhs {
+			return true
+		}
+		ast.Inspect(as.Rhs[0], func(m ast.Node) bool {
+			if bl, ok := m.(*ast.BasicLit); ok && bl.Kind == token.STRING && res == "" {
+				res, _ = strconv.Unquote(bl.Value)
+			}
+			return true
+		})
+		return true
+	})
+	if res == "" {
+		die("%s: assignment to %s not found in %s", p.dir, lhs, fn)
+	}
+	return res
+}
+
+func genEd() {
+	p := repoPkg("pkg/ed25519")
+	v := repoPkg("pkg/vrf")
+	g := newGen("Ed")
+	g.def("publicKeySize", "Int", p.intConst("PublicKeySize"))
+	g.def("privateKeySize", "Int", p.intConst("PrivateKeySize"))
+	g.def("signatureSize", "Int", p.intConst("SignatureSize"))
+	g.def("seedSize", "Int", p.intConst("SeedSize"))
+	g.src(p, "PrivateKey.Public", "PrivateKey.Seed", "PrivateKey.Sign", "GenerateKey", "NewKeyFromSeed", "newKeyFromSeed", "Sign", "sign", "Verify")
+	g.def("vrfProofSize", "Int", v.intConst("ProofSize"))
+	g.def("vrfPtLen", "Int", v.intConst("ptLen"))
+	g.def("vrfCLen", "Int", v.intConst("cLen"))
+	g.def("vrfQLen", "Int", v.intConst("qLen"))
+	g.def("vrfSuiteString", "List Int", v.compositeInts(v.varExpr("suiteString")))
+	g.def("vrfSeparators", "List (List Int)", "["+v.compositeInts(v.varExpr("encodeToCurveDomainSeparatorFront"))+", "+v.compositeInts(v.varExpr("encodeToCurveDomainSeparatorBack"))+", "+
+		v.compositeInts(v.varExpr("challengeGenerationDomainSeparatorFront"))+", "+v.compositeInts(v.varExpr("challengeGenerationDomainSeparatorBack"))+", "+
+		v.compositeInts(v.varExpr("proofToHashDomainSeparatorFront"))+", "+v.compositeInts(v.varExpr("proofToHashDomainSeparatorBack"))+"]")
+	g.def("vrfNonCanonicalSignBytes", "List (List Int)", v.compositeInts(v.varExpr("nonCanonicalSignBytes")))
+	g.src(v, "Prove", "ProofToHash", "Verify", "encodeToCurveTryAndIncrement", "challengeGeneration", "validateKey",
+		"Proof.Hash", "Proof.Bytes", "Proof.SetBytes", "Proof.UnmarshalBinary", "newPointFromCanonicalBytes", "isCanonicalY")
+	g.write()
 }
 
 func genAddress() {
